@@ -9,7 +9,7 @@ CONSTANTS
   PctLs = {0}
   FsOks = {TRUE}
   MaxCreated = 4
-  MaxOps = 6
+  MaxOps = 5
   Features = {"compact", "empty", "tmp", "bad", "crash"}
   EmitMode = "none"
 VIEW View
